@@ -102,9 +102,44 @@ def c09_jobs(tier):
             sim("c09-push", "c14", params={"maxlen": 1 if tier == "quick" else 2}, require_counters=["post_attributes_equal"], require_nontrivial=False)]
 
 
+def c06_jobs(tier):
+    jobs = [sim("c06-wake", "c06", require_counters=["quiescent_points_with_waiter", "wakeups_by_publish", "wakeups_by_nack", "wakeups_by_expiry", "hand_on_wakeups", "cancelled_in_the_instant_of_notify", "cancel_with_saturated_mailbox"]),
+            sim("c06-wake-noyield", "c06", params={"yields": 0})]
+    if tier == "thorough":
+        jobs.append(sim("c06-wake-h2", "c06", transport="h2"))
+    return jobs
+
+
+def c10_jobs(tier):
+    jobs = [sim("c10-wgl", "c10", require_counters=["overlapping_operation_pairs", "names_checked", "overlapping_double_delete_ok"]),
+            sim("c10-seq-status", "c11", require_nontrivial=False)]
+    if tier == "thorough":
+        jobs.append(sim("c10-wgl-h2", "c10", transport="h2"))
+    return jobs
+
+
+def c11_jobs(tier):
+    jobs = [sim("c11-walk", "c11", require_counters=["cross_view_checks", "recreations_with_cross_view"])]
+    if tier == "thorough":
+        jobs.append(sim("c11-walk-h2", "c11", transport="h2"))
+    return jobs
+
+
 CONC_NOTE = SIM_NOTE + " Concurrent histories: oracles are sound necessary conditions over intervals (happens-before from return.seq < call.seq, leases as virtual-time intervals); ambiguous attributions are skipped and counted."
 
 PROPERTIES = {
+    "C06": {"level": "exploration", "jobs": c06_jobs, "engine": "dvsim",
+            "technique": "runtime monitoring at logical quiescence: non-destructive lost-wake-up monitor (hook stats) over seeded waiter/cancel/availability step sequences on a paused clock",
+            "level_text": "The unbounded 'eventually woken' is restated as bounded progress: at a quiescent point of the paused runtime nothing can run without a new request or time passing, so a message in the backlog while a live consumer waits is a lost wake-up. Episodes interleave blocked Pulls and open StreamingPulls (batch limits 1-3) with publishes, nacks from other clients and deadline expiries, cancellations while parked, in the instant of the notification, and while the woken consumer's pull waits at a saturated mailbox; the monitor reads stats through the hook (never a probe pull) and reports only what persists over two barriers. Runs with and without seeded hook yields. Schedules are sampled.",
+            "level_note": CONC_NOTE if False else SIM_NOTE, "assumptions": ["liveness restated as: no backlog with a live waiting consumer at logical quiescence"]},
+    "C10": {"level": "exploration", "jobs": c10_jobs, "engine": "dvsim",
+            "technique": "runtime monitoring with a linearizability checker: per-name Wing-Gong/Lowe search over recorded concurrent control-plane histories, plus exact status checks in sequential walks",
+            "level_text": "4-8 clients hammer 2 topic names and 3 subscription names in 2 projects with create/get/list/delete and data-plane calls (racing creates, create racing delete, a different ack deadline per incarnation so reads identify it); the recorded history is split per name (P-compositionality) and searched for a linearization against a 2-state register specification with a two-point Delete (two overlapping deletes may both succeed; counted in the evidence) and optional effect for calls answered FAILED_PRECONDITION/INTERNAL. Sequential walks (C11 scenario) check every status exactly against the model. A search that exceeds its node budget is inconclusive. Schedules are sampled.",
+            "level_note": SIM_NOTE + " Histories are short by construction (<= 62 operations per name).", "assumptions": ["statuses that only a race with a deletion produces carry no information"]},
+    "C11": {"level": "exploration", "jobs": c11_jobs, "engine": "dvsim",
+            "technique": "runtime monitoring: cross-view consistency monitor at quiescent points plus the exact reference model over seeded delete/re-create walks with races",
+            "level_text": "Seeded walks over 2 topic names x 3 subscription names create, delete and re-create both kinds, publish, pull, ack and advance time, including DeleteSubscription / DeleteTopic / CreateSubscription racing a Publish; after every step the exact model must hold (incarnations, no re-attachment to a re-created namesake, `_deleted_topic_`, messages kept and served after the topic is gone, nothing delivered after deletion) and at every quiescent point ListTopicSubscriptions of every live topic must equal both the set of live subscriptions reporting that topic and the model's attachment set. Histories are sampled.",
+            "level_note": SIM_NOTE, "assumptions": []},
     "C01": {"level": "exploration", "jobs": c01_jobs, "engine": "dvsim",
             "technique": "runtime monitoring of concurrent multi-client histories: conservation / at-least-once accounting with an exact end-of-episode drain on a virtual clock",
             "level_text": "Thousands of seeded concurrent episodes (publishers, unary/blocking/streaming consumers, ackers, nackers, deadline modifiers, subscription and topic churn, bursts larger than the actor mailboxes) run against the real services with seeded scheduler yields; every published message carries a unique tag. After the clients finish, all leases are left to expire and every live subscription is drained, so for every (publish, message, subscription) obligation the checker knows whether the message was delivered, whether it kept coming back while unacknowledged, and whether anything spurious (wrong topic, published before the subscription existed) was delivered; hook stats must read 0/0. Schedules are sampled, hence exploration.",
